@@ -1,11 +1,12 @@
 """C03 — derived Compare is a total order consistent with Equal.
 Proof: Props/C03.lean (model = value-directed lexicographic order cmpVal; cmpVal is antisymmetric,
 transitive, ranges over {-1,0,1}, is 0 iff structEq; single-position order). Tie: T1 ops compare /
-comparec / comparef (exact value) and cmpeq (Compare==0 iff Equal on the emitted functions)."""
+comparec / comparef (exact value), cmpeq (Compare==0 iff Equal on the emitted functions) and cmpcb (the emitted curried
+form returns what the emitted binary form returns)."""
 from vlib import common
 
 PLUGINS = ["equal", "compare", "hash"]
-OPS = {"compare", "comparec", "comparef", "cmpeq", "cmpeqv"}
+OPS = {"compare", "comparec", "comparef", "cmpeq", "cmpeqv", "cmpcb"}
 F40 = ("compare does not use a Compare method that takes its argument by value when the value sits behind a pointer (or is the "
        "top-level struct value itself): it compares field by field there, while derived Equal uses the type's Equal method")
 
@@ -24,7 +25,7 @@ def nontrivial(f, impl, model, spec):
 
 def oracle(f, impl):
     # ops on types with user methods carry no spec= column: the range clause still applies
-    if f[2] in ("cmpeq", "cmpeqv"):
+    if f[2] in ("cmpeq", "cmpeqv", "cmpcb"):
         return impl == "true"
     return impl in ("-1", "0", "1")
 
